@@ -221,9 +221,9 @@ class C07(Prop):
             if spec.get('shape') == 'nvparent' and rng.random() < 0.7:
                 # a non-versioned parent with versioned children is deleted on its own (the flush itself changes them)
                 pos = rng.randrange(0, len(prog) + 1)
-                prog = ([['add', 'Category', [1], {'title': 1}], ['add', 'Article', [3], {'name': 1}],
-                         ['setrel', 'Article', [3], 'category', 'Category', [1]], ['commit']] + prog[:pos] +
-                        [['commit'], ['del', 'Category', [1]], ['commit']] + prog[pos:])
+                prog = ([['add', 'Category', [7], {'title': 1}], ['add', 'Article', [7], {'name': 1}],
+                         ['setrel', 'Article', [7], 'category', 'Category', [7]], ['commit']] + prog[:pos] +
+                        [['commit'], ['del', 'Category', [7]], ['commit']] + prog[pos:])
             info = proggen.entity_info(spec)
             # malformed stream and special steps
             k = rng.random()
